@@ -27,9 +27,11 @@ def dataset(seed):
         vals, lv = est_gen.gen_quanti(rng, n, rng.choice([0, 0.1, 0.2]), style=rng.choice(['levels', 'jitter', 'uniform', 'spike', 'int']))
         feats[f] = {'kind': 'quanti', 'values': vals}
     for f in QUALI:      # numeric categories: they go through StringDiscretizer (apply_async)
-        nlev = rng.randint(2, 5)
+        nlev = rng.randint(2, 5) + (1 if f == 'kb' else 0)      # kb owns a modality ka never sees
         cats = [float(i + 1) for i in range(nlev)] if rng.random() < 0.5 else [i + 1 for i in range(nlev)]
-        feats[f] = {'kind': 'categ', 'values': [None if rng.random() < 0.1 else cats[rng.randrange(nlev)] for _ in range(n)]}
+        # half of the datasets: the first level is rare (it ends in the default modality)
+        pool = list(range(nlev)) if rng.random() < 0.5 else [0] + [i for i in range(1, nlev) for _ in range(5)]
+        feats[f] = {'kind': 'categ', 'values': [None if rng.random() < 0.1 else cats[rng.choice(pool)] for _ in range(n)]}
     for j, f in enumerate(SPARSE):
         feats[f] = {'kind': 'categ', 'values': ['%s%02d' % (f, (i * (j + 1)) % n) for i in range(n)]}
     y = [rng.randint(0, 1) for _ in range(n)]
@@ -80,13 +82,40 @@ def projection(o, X, names, ds=None):
                                 disturbed[g] = disturbed.get(g, False) or not same
                 except Exception as e:
                     swapped[f] = type(e).__name__
+    # a third frame: every qualitative feature that owns a default modality meets, in the same call, a value
+    # that is a known modality of the other qualitative feature and a value nobody knows
+    cross = {}
+    if ds is not None and qs:
+        import numpy as np
+        import pandas as pd
+        fr = X.copy(deep=True)
+        with_default = [f for f in qs if any(isinstance(k, str) and k == o.str_default for k in o.values_orders[f])]
+        for f in qs:
+            if f not in with_default:
+                cross[f] = 'NODEFAULT'
+                continue
+            other = QUALI[(QUALI.index(f) + 1) % len(QUALI)]
+            own = [v for v in ds['features'][f]['values'] if v is not None]
+            foreign = [v for v in ds['features'][other]['values'] if v is not None and v not in own]
+            col = [np.nan if v is None else v for v in ds['features'][f]['values']]
+            col[0] = max(foreign, key=foreign.count) if foreign else col[0]     # the other feature's most frequent own modality
+            col[1] = 99
+            fr[f] = pd.Series(col, dtype=object)
+        if with_default:
+            try:
+                res = o.transform(fr)
+                for f in with_default:
+                    cross[f] = [('nan' if E.isnan(v) else repr(v)) for v in res[f]]
+            except Exception as e:
+                for f in with_default:
+                    cross[f] = type(e).__name__
     for f in names:
         if f not in o.features:
             out[f] = 'DROPPED'
             continue
         vo = o.values_orders[f]
         col = [('nan' if E.isnan(v) else repr(v)) for v in tr[f]] if tr is not None else terr
-        col = [col, swapped.get(f), bool(disturbed.get(f, False))]
+        col = [col, swapped.get(f), bool(disturbed.get(f, False)), cross.get(f)]
         out[f] = json.dumps([[repr(k) for k in vo], [[repr(k), [repr(m) for m in vo.content[k]]] for k in vo], col])
     return out
 
